@@ -502,6 +502,7 @@ func c12Mutate(s *c12Scn, role string, msgs []c12Msg, thorough bool) []*c12Mutan
 		add(lbl+"-line", "no-colon", []byte("#"+m.typ+m.payload+"\n"), m.bin)
 		add(lbl+"-line", "no-hash", []byte(m.typ+":"+m.payload+"\n"), m.bin)
 		add(lbl+"-line", "empty-type", line("", m.payload), m.bin)
+		add(lbl+"-line", "colon-first", []byte(":"+m.payload+"\n"), m.bin).must = i < 6 // what the splitters cut at index 0
 		add(lbl+"-line", "type-only", []byte("#"+m.typ+"\n"), m.bin)
 		add(lbl+"-line", "empty-payload", line(m.typ, ""), m.bin)
 		add(lbl+"-line", "blank", []byte("\n"))
